@@ -3,6 +3,7 @@
    model and is checked on the implementation by the audits A1-A2 and mutation probes of the harness. *)
 From Coq Require Import ZArith NArith List Bool String.
 From DM Require Import Base.PyVal Spec.Nf Spec.Table Spec.Ops Proofs.TableFacts Proofs.OpFacts.
+From DM Require Import Spec.SeriesEnc Proofs.SeriesEncFacts.
 Import ListNotations.
 Open Scope string_scope.
 
@@ -24,6 +25,12 @@ Proof. exact alias_reads_same. Qed.
 Print Assumptions C06_alias_reads_same.
 
 (* the deliberate alias: dm.b = dm.a binds both names to one slot, so a write through either is read through both *)
+(* the same frame property for the operations on series columns (Spec/SeriesEnc.v) *)
+Theorem C06_series_frame_partial : forall w so j,
+  (j < List.length (pool w))%nat -> starget so <> Some j -> get (fst (sstep w so)) j = get w j.
+Proof. exact sstep_frame. Qed.
+Print Assumptions C06_series_frame_partial.
+
 Example C06_alias_intended :
   let w := run [ONew 2; OSetCol 0 "a" (RSeq [PInt 1; PInt 2]); OSetColFromCol 0 "b" 0 "a";
                 OSetCell 0 "b" (AInt 0) (RScalar (PInt 9))] w0 in
